@@ -16,7 +16,7 @@ PY
 )
   res=$(WT="$WTD" TAG=$TAGL tools/confirm_mutation.sh "$ID" "$m" $feats 2>&1 | tail -2 | tr '\n' ' ')
   echo "$ID $m confirm: $res"
-  if [ -d "seeded/$ID-$TAGL$m" ]; then
+  if [ -d "seeded/$ID-$TAGL$m" ] && [ -z "${SKIP_TRY:-}" ]; then
     out=$(tools/try_mutation.sh "seeded/$ID-$TAGL$m/patch.diff" "$ID" quick 2>/dev/null)
     echo "$ID $m check: $(echo "$out" | grep -o 'exit=[0-9]*' | tail -1) $(echo "$out" | grep -o 'signature=[^ ]*' | sed 's/signature=//' | sort -u | tr '\n' ' ' | cut -c1-300)"
     python3 - "seeded/$ID-$TAGL$m/meta.json" "$WTD/_out/${m}_meta.json" <<'PY'
